@@ -451,6 +451,8 @@ impl Graph {
 
         #[cfg(feature = "verif_hooks")]
         crate::verif::reset_matches();
+        #[cfg(feature = "verif_hooks")]
+        crate::verif::record_dfa(&graph.dfa, start_id);
 
         // Now, for each state, construct its edges and determine which leaves it matches
         for (dfa_id, state_id) in dfa_lookup.iter() {
